@@ -149,11 +149,16 @@ def _configs(tier, thick=False):
 # ----------------------------------------------------------------------------- oracle helpers
 
 
-def inside(m, P, C_, S_, n, ndim, strict):
+def inside(m, P, C_, S_, n, ndim, strict, margin=None):
+    """margin: the point must be inside by at least this much on every axis (symbolic mode: a term built on the
+    tolerance placeholder, so that the counterexample asked of the solver lies well inside the cell and a finer
+    pixel grid in the replay is bound to hit the wrongly dropped region)."""
     fs = []
     for k in range(ndim):
         d = P[k] - C_[k][n]
         h = S_[n] * 0.5
+        if margin is not None:
+            h = h - margin
         sc = m.abs(P[k]) + m.abs(C_[k][n]) + h
         if strict:
             fs.append(m.And(m.lt_b(d, h, sc), m.gt_b(d, -h, sc)))
@@ -387,8 +392,11 @@ def _wiring(m, cfg):
         # the two-cell configurations check the kernel arguments and the assembly.  Thorough tier proves it here too.
         dropped = []
     for n in dropped:
+        # "strictly" = by more than 1e-4 window sizes (the tolerance placeholder is 1e-9 in the proof and 1e-6 in the
+        # search for a replayable counterexample, i.e. a margin of 0.1 window sizes there)
         m.check("a cell strictly containing a point of the window is handed to the kernel (pre-selection is sound)",
-                m.Not(inside(m, Pfree, C_, S_, n, ndim, True)), key=f"selection:{tag}", timeout_ms=(90000 if ncell == 1 else 240000),
+                m.Not(inside(m, Pfree, C_, S_, n, ndim, True, margin=m.tol_term() * (1.0e5 * Wcm))), key=f"selection:{tag}",
+                timeout_ms=(90000 if ncell == 1 else 240000),
                 drop=core.mentions_to_int)     # the selection precedes the rounding of the depth resolution
     if not dropped:
         m.ok("all cells handed to the kernel (or judged per cell)")
@@ -517,8 +525,24 @@ def _wiring(m, cfg):
 def _end_to_end(m, cfg, tag, dg, lay, kw, C_, S_, RHO, W_, O, Wcm, fu, point, ndim, basis, Pfree):
     """Concrete replay: the un-instrumented map against the point-location oracle.  A failure is
     reported under every key of the configuration (wildcard)."""
+    bad = []
+    for (nx, ny) in [(cfg["nx"], cfg["ny"]), (16, 16)]:
+        # the configured grid, and a finer one (a cell wrongly dropped by the pre-selection shows up at the pixels
+        # whose sample points fall into it)
+        kw2 = dict(kw, resolution=dict(kw["resolution"], x=nx, y=ny))
+        if (nx, ny) != (cfg["nx"], cfg["ny"]) and cfg.get("thick") and not cfg.get("nz"):
+            kw2["resolution"].pop("z", None)
+        bad += _end_to_end_one(m, cfg, nx, ny, lay, kw2, C_, S_, RHO, W_, O, Wcm, fu, point, ndim, basis, Pfree)
+    if bad:
+        m.failed.append("*")
+        m.notes = bad[:4]
+    else:
+        m.passed.append("end-to-end")
+
+
+def _end_to_end_one(m, cfg, nx, ny, lay, kw, C_, S_, RHO, W_, O, Wcm, fu, point, ndim, basis, Pfree):
     import osyris
-    nx, ny, thick, op = cfg["nx"], cfg["ny"], cfg.get("thick"), cfg.get("op", "sum")
+    thick, op = cfg.get("thick"), cfg.get("op", "sum")
     ncell = len(S_)
     nvec, uvec, vvec = basis
     bad = []
@@ -585,12 +609,7 @@ def _end_to_end(m, cfg, tag, dg, lay, kw, C_, S_, RHO, W_, O, Wcm, fu, point, nd
                         bad.append(f"pixel ({i},{j}) should be masked, shows {D[j][i]}")
                 elif Mk[j][i] or not m.close(D[j][i], want, scale=abs(want)):
                     bad.append(f"pixel ({i},{j}) should show {want}, shows {'masked' if Mk[j][i] else D[j][i]}")
-    if bad:
-        m.failed.append("*")
-        m.observed["end_to_end_failures"] = []
-        m.notes = bad
-    else:
-        m.passed.append("end-to-end")
+    return bad
 
 
 # ----------------------------------------------------------------------------- (B) kernel
